@@ -3,8 +3,9 @@
 from __future__ import annotations
 
 import ast
+import re
 
-from hsa.core import AnalysisError, Repo, Report, body_walk, call_name, dotted, kwarg, last_attr, src
+from hsa.core import AnalysisError, Repo, Report, body_walk, call_name, dotted, find_assign, kwarg, last_attr, src
 from hsa.flow import Flow, _loop_level, function_exits, normal_exit_states
 from hsa.fold import UNKNOWN, fold_in
 from hsa.keccak import selector
@@ -137,6 +138,14 @@ def r03_2_panic_recognition(repo: Repo, rep: Report):
     rep.check("R03.2", ok, m, ex_ip, "Exec.is_panic_of delegates to the frame's own output", "Exec.is_panic_of must look at this frame's output")
 
 
+def _parses(text: str) -> bool:
+    try:
+        ast.parse(text, mode="eval")
+        return True
+    except SyntaxError:
+        return False
+
+
 def r03_3_setup_fail_closed(repo: Repo, rep: Report):
     rep.rule("R03.3", "constructor and setUp: exactly one error-free path, otherwise an exception (-> no PASS)")
     m, dt = repo.fn("__main__.deploy_test")
@@ -151,15 +160,38 @@ def r03_3_setup_fail_closed(repo: Repo, rep: Report):
     apps = [c for c in method_calls(su, "append") if dotted(c.func) == "setup_exs_no_error.append"]
     ok = len(apps) == 1 and "not (err := setup_ex.context.output.error)" in guard_set(m, apps[0]) or (len(apps) == 1 and any("output.error" in g and g.startswith("not") for g in guard_set(m, apps[0])))
     rep.check("R03.3", bool(ok), m, apps[0] if apps else su, f"setup_exs_no_error.append(...) under {sorted(guard_set(m, apps[0])) if apps else '?'}", "only error-free setUp paths may be kept")
-    matches = [s for s in body_walk(su) if isinstance(s, ast.Match) and src(s.subject) == "len(setup_exs)"]
-    ok = False
-    if len(matches) == 1:
-        cases = matches[0].cases
-        pats = [(src(c.pattern), src(c.guard) if c.guard else None, any(isinstance(x, ast.Raise) for x in c.body)) for c in cases]
-        ok = ("0", None, True) in pats and any(p[1] in ("n > 1", "n >= 2") and p[2] for p in pats)
-        rep.check("R03.3", ok, m, matches[0], f"match len(setup_exs): {pats}", "0 or more than 1 surviving setUp path must raise")
-    else:
-        rep.bad("R03.3", m, su, "match len(setup_exs)", "setUp path-count check not found")
+    # 0 or more than one surviving path raises (written as `match len(setup_exs)` or as an if-chain, possibly on a local
+    # that holds the length)
+    def conditions_of(node):
+        """normalised conditions under which `node` runs: if/elif guards, or the case of an enclosing match"""
+        out = set()
+        for g in guard_set(m, node):
+            out.add(g.replace(" ", ""))
+        cur = node
+        for anc in m.ancestors(node):
+            if isinstance(anc, ast.match_case):
+                mt = m.parents.get(anc)
+                subj = src(mt.subject).replace(" ", "") if isinstance(mt, ast.Match) else "?"
+                pat = anc.pattern
+                if isinstance(pat, ast.MatchValue):
+                    out.add(f"{subj}=={src(pat.value)}")
+                elif isinstance(pat, ast.MatchAs) and pat.pattern is None and pat.name and anc.guard is not None:
+                    out.add(src(anc.guard).replace(" ", "").replace(pat.name, subj))
+            cur = anc
+        # a local that holds the length
+        res = set()
+        for c in out:
+            for nm in {n.id for n in ast.walk(ast.parse(c, mode="eval")) if isinstance(n, ast.Name)} if _parses(c) else ():
+                vals = [src(v).replace(" ", "") for v in find_assign(su, nm)]
+                if vals == ["len(setup_exs)"]:
+                    c = re.sub(rf"\b{nm}\b", "len(setup_exs)", c)
+            res.add(c)
+        return res
+
+    raises = [r for r in body_walk(su) if isinstance(r, ast.Raise) and r.exc is not None and "HalmosException" in src(r.exc)]
+    zero = [r for r in raises if conditions_of(r) & {"len(setup_exs)==0", "notsetup_exs", "not(setup_exs)", "len(setup_exs)<1"}]
+    many = [r for r in raises if conditions_of(r) & {"len(setup_exs)>1", "len(setup_exs)>=2", "1<len(setup_exs)", "len(setup_exs)!=1"}]
+    rep.check("R03.3", bool(zero) and bool(many), m, (zero + many + [su])[0], f"setup: raise when len(setup_exs) == 0 ({len(zero)} site) and when > 1 ({len(many)} site)", "0 or more than 1 surviving setUp path must raise")
     un = [s for s in body_walk(su) if isinstance(s, ast.Assign) and src(s.targets[0]) in ("[setup_ex]", "(setup_ex,)") and src(s.value) == "setup_exs"]
     rep.check("R03.3", bool(un), m, un[0] if un else su, "[setup_ex] = setup_exs", "the returned setUp state must be the single surviving path")
     # run_contract: any setUp exception returns no results
